@@ -34,3 +34,32 @@ Theorem operators_commute_with_relabelling :
       lim sd (apply_binop o (relabel phi f) (relabel phi g)) (phi x) = lim sd (relabel phi (apply_binop o f g)) (phi x).
 Proof. intros D E OD OE phi Hm. exact (relabel_commutes_binop phi Hm). Qed.
 Print Assumptions operators_commute_with_relabelling.
+
+(* ---- change of unit / origin on the rational domain: k |-> a k + b, a > 0 (e.g. nanoseconds since the epoch vs days) *)
+Require Import SC.Base.QcOrd SC.Model.Masking SC.Model.Stats SC.Proofs.StatsFacts SC.Proofs.UnitFacts.
+Open Scope Qc_scope.
+
+Theorem a_change_of_unit_is_a_relabelling :
+  forall (a b : Qc), 0 < a -> forall x y, ltb (affine a b x) (affine a b y) = ltb x y.
+Proof. exact affine_mono. Qed.
+Print Assumptions a_change_of_unit_is_a_relabelling.
+
+(* lengths and integrals are measured in the unit of the domain: the integral scales by a, the mean does not change *)
+Theorem integral_scales_with_the_unit_and_mean_does_not :
+  forall (a b : Qc), 0 < a -> forall f : stairsQ,
+    integral_and_mean (relabel (affine a b) f) = (vmul (fst (integral_and_mean f)) (Some a), snd (integral_and_mean f)).
+Proof. exact integral_mean_relabel. Qed.
+Print Assumptions integral_scales_with_the_unit_and_mean_does_not.
+
+Theorem value_sums_scale_with_the_unit :
+  forall (a b : Qc) (f : stairsQ),
+    value_sums (relabel (affine a b) f) = option_map (map (sc a)) (value_sums f).
+Proof. exact value_sums_relabel. Qed.
+Print Assumptions value_sums_scale_with_the_unit.
+
+(* the value distribution - hence ecdf, percentiles, fractiles, median, hist probabilities, and var given the mean - is
+   the same object *)
+Theorem the_value_distribution_does_not_depend_on_the_unit :
+  forall (a b : Qc), 0 < a -> forall f : stairsQ, ecdf_of (relabel (affine a b) f) = ecdf_of f.
+Proof. exact ecdf_relabel. Qed.
+Print Assumptions the_value_distribution_does_not_depend_on_the_unit.
